@@ -11,7 +11,7 @@
 From Coq Require Import List NArith Arith Bool.
 From SNT Require Import Base.Outcome Automata.DfaData Automata.DfaDataProofs
   Automata.Tokenizer Automata.TokenizerRun Automata.TokenizerMunch Automata.TokenizerTheorems
-  Gen.ProdDFA.
+  Gen.ProdDFA Decoder.Payload Decoder.Events Decoder.EventsProofs Decoder.EventsTheorems.
 Import ListNotations.
 
 Section Generic.
@@ -112,6 +112,29 @@ Section Generic.
     - exact (munch1_is_longest Q Item q0 delta accepting terminal decode_item Ht s t k H).
     - exact (munch1_raw_no_match Q Item q0 delta accepting terminal decode_item s t k H).
   Qed.
+
+  (* what a raw token is, stated without the code's buffer logic: when no prefix of the remaining
+     stream is accepted, the raw token is its LONGEST LIVE PREFIX (every proper extension is dead),
+     or its first byte alone when no recognised sequence starts with that byte.  Bytes inside such a
+     dead prefix are not re-tokenised: `ESC [ 1 A` on the command automaton is Raw(ESC [ 1) then `A`. *)
+  Theorem C03_raw_span : forall (s : list N) t k,
+    munch1 s = Some (t, k) -> acc_at s k = false ->
+    t = TRaw (firstn k s) /\
+    ((dead_at s k = false /\ dead_at s (S k) = true) \/ (k = 1%nat /\ dead_at s 1 = true)).
+  Proof. exact (munch1_raw_span Q Item q0 delta accepting terminal decode_item). Qed.
+
+  (* "recognised" means accepted by the automaton.  The longest accepted prefix is emitted as the item
+     its payload decoder makes of it; when the decoder rejects the bytes (decode_item = None) the SAME
+     span surfaces as one raw token and a shorter complete sequence is not reconsidered
+     (`ESC [ 0 ; 0 R` is Raw(ESC[0;0R), not alt+[ followed by `0;0R`). *)
+  Theorem C03_accepted_span : forall (s : list N) t k,
+    munch1 s = Some (t, k) -> acc_at s k = true ->
+    exists q, run (firstn k s) = Some q /\ accepting q = true /\
+      match decode_item q (firstn k s) with
+      | Some i => t = TItem i (firstn k s)
+      | None => t = TRaw (firstn k s)
+      end.
+  Proof. exact (munch1_accepted Q Item q0 delta accepting terminal decode_item). Qed.
 End Generic.
 
 (* ------------------------------------------------------------------------- *)
@@ -144,6 +167,22 @@ Section Prod.
     destruct d_is_prod as [-> | ->]; apply terminal_ok_sound; vm_compute; reflexivity.
   Qed.
 End Prod.
+
+(* the public wrappers: TTYEventDecoder / TTYCommandDecoder = the tokeniser plus the Raw wrapper
+   (an EMPTY reject would make `decode` return None and end the caller's loop early; raw spans are
+   never empty, so the wrapper is transparent) with the trait's default decode_into: for any
+   automaton, matcher list and tables, every partition into reads yields `munch` of the whole stream *)
+Theorem C03_public_wrappers : forall (d : dfa) (ids : list N) (tb : dtabs) (chunks : list (list N)) (fuel : nat),
+  (length (concat chunks) + 3 <= fuel)%nat ->
+  exists s',
+    tty_feed d (payload_at ids tb) fuel (t_init d) chunks
+      = Ok (fst (t_munch d (payload_at ids tb) (concat chunks)), s').
+Proof.
+  intros d ids tb chunks fuel H. rewrite (tty_feed_eq d ids tb fuel chunks (t_init d) I).
+  destruct (feed_munch N pitem (d_start d) (d_delta d) (d_accepting d) (d_terminal d)
+              (item_of (payload_at ids tb) d) chunks fuel H) as (s' & A & _).
+  exists s'. exact A.
+Qed.
 
 (* ------------------------------------------------------------------------- *)
 Check C03_chunking : forall Q Item q0 delta accepting terminal decode_item
